@@ -205,6 +205,44 @@ func c11units(tier string) []mc.Unit {
 			add("mixed", mixed, n, "")
 		}
 	}
+	// long inputs at lengths around powers of two (an enumerated family): reverse complement against the oracle,
+	// involution, and the anti-homomorphism at a few split points
+	for _, n := range []int{255, 256, 257, 4095, 4097, 9999, 65535, 65537, 70001, tier2(tier, 70003, 100000)} {
+		n := n
+		us = append(us, mc.Unit{Name: fmt.Sprintf("long/n=%d", n), Weight: n/2000 + 1, Run: func(r *mc.Recorder) {
+			x := uint32(77)
+			b := make([]byte, n)
+			for i := range b {
+				x = x*1664525 + 1013904223
+				b[i] = (c11codes + "acgtn")[(x>>24)%20]
+			}
+			s := string(b)
+			want := c11rc(s)
+			var rc string
+			if p := catch(func() { rc = transform.ReverseComplement(s) }); p != "" || rc != want {
+				i := 0
+				for i < len(rc) && i < len(want) && rc[i] == want[i] {
+					i++
+				}
+				r.Failf("rc-code-semantics", fmt.Sprintf("pseudo-random IUPAC string of %d letters", n), nil, "oracle reverse complement", fmt.Sprintf("first difference at %d of %d %s", i, len(rc), p))
+			}
+			if rr := transform.ReverseComplement(rc); rr != s {
+				r.Failf("rc-involution", fmt.Sprintf("pseudo-random IUPAC string of %d letters", n), nil, "the input", "differs")
+			}
+			for _, k := range []int{1, n / 3, n - 1} {
+				if transform.ReverseComplement(s[k:])+transform.ReverseComplement(s[:k]) != rc {
+					r.Failf("rc-anti-homomorphism", fmt.Sprintf("pseudo-random IUPAC string of %d letters split at %d", n, k), nil, "rc(b)+rc(a)", "differs")
+				}
+			}
+			if transform.Reverse(transform.Complement(s)) != rc {
+				r.Failf("rc-is-reverse-of-complement", fmt.Sprintf("pseudo-random IUPAC string of %d letters", n), nil, "equal", "differs")
+			}
+			r.Eval(6)
+			r.AddStates(1)
+			r.AddTransitions(6)
+			r.AddNontrivial(1)
+		}})
+	}
 	return us
 }
 
